@@ -61,7 +61,7 @@ def keep_c12(c, quick):
         return c["w"] in C12_W32 and (not quick or c["n"] == 9)
     if c["fn"] == "page_delta":
         return True
-    if c["fn"] in ("make_definitions", "read_plain_t", "ba_roundtrip", "dict_roundtrip", "codec_threads"):
+    if c["fn"] in ("make_definitions", "make_definitions_big", "read_plain_t", "ba_roundtrip", "dict_roundtrip", "codec_threads"):
         return False
     if c["fn"] == "delta_unpack" and m.get("pattern") == "stale":
         return True
@@ -1878,3 +1878,30 @@ def _ct_oracle(c, r, so, guard):
 FNS["codec_threads"] = dict(model=lambda c: ("uleb_enc", 0), tagged=False, views=_info_views("none"), spec=lambda c: ("uleb_enc", 0),
                             oracle=_ct_oracle, safe=lambda c: True, cls=lambda c: {}, trivial=lambda c: False)
 EXTRA_GENERATORS.append(gen_codec_threads)
+
+
+# =============================================================================================
+# make_definitions on pages of millions of rows (thorough tier): the 3 -> 4 byte boundary of the run header (2^20 groups)
+# =============================================================================================
+
+def gen_md_big(rng, quick):
+    if quick:
+        return []
+    cases = []
+    for n in (8388591, 8388592, 8388599, 8388600, 8388601, 8388608):
+        for version in (1, 2):
+            cases.append({"fn": "make_definitions_big", "n": n, "version": version, "null_at": [0, n // 2, n - 1], "stream": "main", "meta": {}})
+    return cases
+
+
+def _mdb_oracle(c, r, so, guard):
+    if r[0] != "ok":
+        return [(r[0], "make_definitions on %d rows: %r" % (c["n"], r[:3]))]
+    if r[1]:
+        return [("values", "make_definitions(%d rows with nulls, page v%d): %s (block of %d bytes starting %s)" % (c["n"], c["version"], "; ".join(r[1]), r[2], r[3]))]
+    return []
+
+
+FNS["make_definitions_big"] = dict(model=lambda c: ("uleb_enc", 0), tagged=False, views=_info_views("none"), spec=lambda c: ("uleb_enc", 0),
+                                   oracle=_mdb_oracle, safe=lambda c: True, cls=lambda c: {"version": c["version"]}, trivial=lambda c: False)
+EXTRA_GENERATORS.append(gen_md_big)
